@@ -10,7 +10,6 @@ Variables (f0 f1 : F) (fadd fmul fsub fdiv : F -> F -> F) (fopp finv : F -> F).
 Hypothesis Fth : field_theory f0 f1 fadd fmul fsub fopp fdiv finv (@eq F).
 Add Field Ffield : Fth.
 
-Notation "0" := f0. Notation "1" := f1.
 Infix "+" := fadd. Infix "*" := fmul. Infix "-" := fsub. Infix "/" := fdiv.
 Notation "- x" := (fopp x).
 
@@ -19,13 +18,13 @@ Notation opf := (opf F fadd fmul fsub fdiv).
 Notation expr := (expr F).
 Notation env := (env F).
 
-Lemma one_neq_zero : 1 <> 0.
+Lemma one_neq_zero : f1 <> f0.
 Proof. exact (F_1_neq_0 Fth). Qed.
 
-Lemma mone_neq_zero : - 1 <> 0.
+Lemma mone_neq_zero : - f1 <> f0.
 Proof.
   intro H. apply one_neq_zero.
-  assert (E : 1 = - (- 1)) by ring. rewrite E, H. ring.
+  assert (E : f1 = - (- f1)) by ring. rewrite E, H. ring.
 Qed.
 
 (* ------------------------------------------------------------------------- *)
@@ -70,7 +69,8 @@ Proof.
            | H : is_constant ?z ?v = true |- _ => apply (is_constant_eval en) in H; simpl in H
            | H : near ?c ?v = true |- _ => apply near_exact in H
            end; subst; simpl;
-    try reflexivity; try ring;
+    try discriminate; try reflexivity; try ring;
+    try (rewrite (Fdiv_def Fth); ring);
     try (field; first [exact one_neq_zero | exact mone_neq_zero]).
 Qed.
 
@@ -104,7 +104,7 @@ Definition dopf (o : oper) (a b : dual) : dual :=
 
 (* dual division really is the inverse of dual multiplication: the quotient rule is forced
    by the product rule *)
-Lemma dual_div_mul_l : forall a b : dual, fst b <> 0 -> dopf OMul (dopf ODiv a b) b = a.
+Lemma dual_div_mul_l : forall a b : dual, fst b <> f0 -> dopf OMul (dopf ODiv a b) b = a.
 Proof.
   intros [a a'] [b b'] Hb. simpl in *. f_equal; field; auto.
 Qed.
@@ -124,12 +124,12 @@ Variable kind : string -> vkind.
    parameters (value, 0), operators are dual arithmetic *)
 Fixpoint deval (k : nat) (par : bool) (en : env) (e : expr) : dual :=
   match e with
-  | Const c => (c, 0)
+  | Const c => (c, f0)
   | PD n c D ph => (e_pd en n c D ph, e_pd en n c (bump D k 1%nat) (negb par))
   | VR n Ix D p => (e_vr en n Ix D p,
-                    match kind n with KInput => e_vr en n Ix (bump D k 1%nat) par | _ => 0 end)
+                    match kind n with KInput => e_vr en n Ix (bump D k 1%nat) par | _ => f0 end)
   | Op o x y => dopf o (deval k par en x) (deval k par en y)
-  | _ => (eval en e, 0)
+  | _ => (eval en e, f0)
   end.
 
 Notation dx := (dx F f0 kind).
@@ -250,9 +250,9 @@ End StructKey.
 Lemma cse_funcname_blind_refuted_l :
   exists (a b : expr) (en : env), erase_fn F a = erase_fn F b /\ eval en a <> eval en b.
 Proof.
-  exists (Fn "sin" (Const 0)), (Fn "cos" (Const 0)),
-         (mkEnv (fun _ _ _ _ => 0) (fun _ _ _ _ => 0) (fun _ => 0) 0 0
-                (fun f _ => if String.eqb f "sin" then 0 else 1)).
+  exists (Fn "sin" (Const f0)), (Fn "cos" (Const f0)),
+         (mkEnv (fun _ _ _ _ => f0) (fun _ _ _ _ => f0) (fun _ => f0) f0 f0
+                (fun f _ => if String.eqb f "sin" then f0 else f1)).
   split; [reflexivity|]. simpl. intro H. apply one_neq_zero. symmetry. exact H.
 Qed.
 
